@@ -26,6 +26,10 @@ VARIANTS = {  # property -> variants used per tier (first is the primary)
     'C04': {'quick': ['asan'], 'thorough': ['asan', 'swcrc']},
     'C03': {'quick': ['asan'], 'thorough': ['asan', 'swcrc']},
 }
+# thorough runs of the store round-trip properties spend a quarter of their budget on the gcc -O2 build without sanitizers:
+# the same oracles under another compiler and optimisation level (the sanitizer build stays the primary)
+for _p in ('C01', 'C02', 'C05', 'C09', 'C11', 'C12', 'C13', 'C14', 'C15'):
+    VARIANTS[_p] = {'quick': ['asan'], 'thorough': ['asan', 'plain']}
 DEFAULT_BUDGET = {'quick': 45, 'thorough': 600}
 RULES = {
     'C01': 'seeded writer program (types x definitions x partitions x first ids) + read windows; non-trivial = some signal spans more than one storage block and >= 3 reads succeeded; distinct = distinct run hash (hash of the event log incl. every fs op and return code)',
@@ -336,9 +340,11 @@ def cmd_check(prop, tier, budget_s, nworkers, variants, base_seed):
     known = load_known()
     exes = {v: build(v) for v in variants}
     all_results, all_crashes, edges = [], [], 0
-    per_variant_budget = budget_s / len(variants)
+    shares = {v: 1.0 / len(variants) for v in variants}
+    if len(variants) == 2 and variants[1] == 'plain':
+        shares = {variants[0]: 0.75, 'plain': 0.25}
     for v in variants:
-        res, cr, e = run_workers(exes[v], prop, tier, base_seed, nworkers, per_variant_budget, v)
+        res, cr, e = run_workers(exes[v], prop, tier, base_seed, nworkers, budget_s * shares[v], v)
         all_results += res; all_crashes += cr; edges = max(edges, e)
     # ---- determinism sample: re-run some seeds in fresh processes, hashes must agree
     det_checked, det_bad = 0, []
